@@ -26,7 +26,8 @@ func (s *skipListIndex) put(key []byte, pos *datafile.DataPos) *datafile.DataPos
 	if oldItem != nil {
 		oldValue = oldItem.Value.(*datafile.DataPos)
 	}
-	s.list.Set(key, pos)
+	// 索引必须持有 key 的独立副本, 调用方可能复用传入的切片
+	s.list.Set(append([]byte(nil), key...), pos)
 	return oldValue
 }
 
